@@ -251,6 +251,31 @@ def empty_block_is_raw(prog, res):
     res.need(R, 2)
 
 
+def pending_range_reset_together(prog, res):
+    """T13: [outStart, outEnd) is the part of the decoder's output ring that is decoded and not yet flushed; `outStart == outEnd`
+    is how the flush stage knows it is done, and how the end of a frame is reported.  Wherever outStart is SET to a constant (the
+    ring is rewound, the stream is initialised) outEnd is set in the same basic block: a rewind that leaves the old outEnd makes
+    the decoder report pending output it does not have (return 1 instead of 0 at the end of the frame, last byte kept hostage)."""
+    R = "T13.pending-range-reset-together"
+    n = 0
+    for name in ("ZSTD_decompressStream", "ZSTD_decompressContinueStream"):
+        f = prog.fn(name)
+        for b, i, x in f.events(lambda y: y.get("k") == "asg" and y.get("op") == "=" and strip_casts(y["lhs"]).get("k") == "mem" and strip_casts(y["lhs"]).get("f") == "outStart"):
+            rhs = strip_casts(f.resolve_x(x["rhs"]))
+            v = rhs
+            while v is not None and v.get("k") == "asg":          # a = b = 0
+                v = strip_casts(f.resolve_x(v["rhs"]))
+            if v is None or const_val(v) is None:
+                continue
+            n += 1
+            same = any(y.get("k") == "asg" and strip_casts(y["lhs"]).get("k") == "mem" and strip_casts(y["lhs"]).get("f") == "outEnd"
+                       for r in f.blocks[b]["el"] for y in walk(r))
+            res.check(same, R, "%s:outStart=const@%s" % (name, x.get("l")), "%s:%s" % (f.file, x.get("l")), "outEnd is set in the same block",
+                      "%s sets outStart to a constant and leaves outEnd: the pending range [outStart, outEnd) is no longer empty after a rewind of the output ring, the "
+                      "decoder returns 1 instead of 0 at the end of a frame and fails on the next call (Unknown frame descriptor)" % name)
+    res.need(R, 2)
+
+
 def run(tier):
     res = Result("C02", tier)
     tus, info = extract(["compress", "decompress", "deprecated", "common"])
@@ -264,6 +289,7 @@ def run(tier):
     zbuff_wrappers(prog, res)
     core_decodes_in_streaming_mode(prog, res)
     empty_block_is_raw(prog, res)
+    pending_range_reset_together(prog, res)
     single_pass_shortcut(prog, res)
     from .C10 import staging_buffer          # shared clause: the staging buffer holds every unit the decoder can ask for
     staging_buffer(prog, res)
